@@ -138,6 +138,35 @@ func values(seed uint64, n int, emptyEO bool) {
 	w := bufio.NewWriter(os.Stdout)
 	defer w.Flush()
 	enc := json.NewEncoder(w)
+	emit := func(t target, v reflect.Value) {
+		o := obs{"k": "rt", "ty": t.Name, "val": dumpTop(v)}
+		b, cls := safeEncode(v.Interface())
+		o["enc"] = cls
+		if cls == "ok" {
+			o["hex"] = hex.EncodeToString(b)
+			d, m, dcls := safeDecode(t.T, b)
+			o["dec"] = dcls
+			if dcls == "ok" {
+				o["dval"] = dumpTop(d)
+				o["consumed"] = m
+				// ua.DecodeService on (type id ++ encoding) must be: the type id, the registered type, ua.Decode of the body
+				// (the model's decode_service of theorem C01_service is exactly that composition)
+				if sid := ua.ServiceTypeID(v.Interface()); sid != 0 {
+					o["svc"] = serviceTie(sid, b, o["dval"].(string))
+				}
+				b2, cls2 := safeEncode(d.Interface())
+				o["re"] = cls2
+				// the decoded value must be a fixed point: encode it again, decode, compare the trees
+				if cls2 == "ok" {
+					d2, m2, cls3 := safeDecode(t.T, b2)
+					o["resame"] = cls3 == "ok" && m2 == len(b2) && dumpTop(d2) == o["dval"]
+				} else {
+					o["resame"] = false
+				}
+			}
+		}
+		enc.Encode(o)
+	}
 	for ti, t := range all {
 		k := n
 		if ti < len(customs) {
@@ -148,34 +177,25 @@ func values(seed uint64, n int, emptyEO bool) {
 			if i%3 == 0 {
 				depth = 1
 			}
-			v := g.value(t.T, depth)
-			o := obs{"k": "rt", "ty": t.Name, "val": dumpTop(v)}
-			b, cls := safeEncode(v.Interface())
-			o["enc"] = cls
-			if cls == "ok" {
-				o["hex"] = hex.EncodeToString(b)
-				d, m, dcls := safeDecode(t.T, b)
-				o["dec"] = dcls
-				if dcls == "ok" {
-					o["dval"] = dumpTop(d)
-					o["consumed"] = m
-					// ua.DecodeService on (type id ++ encoding) must be: the type id, the registered type, ua.Decode of the body
-					// (the model's decode_service of theorem C01_service is exactly that composition)
-					if sid := ua.ServiceTypeID(v.Interface()); sid != 0 {
-						o["svc"] = serviceTie(sid, b, o["dval"].(string))
-					}
-					b2, cls2 := safeEncode(d.Interface())
-					o["re"] = cls2
-					// the decoded value must be a fixed point: encode it again, decode, compare the trees
-					if cls2 == "ok" {
-						d2, m2, cls3 := safeDecode(t.T, b2)
-						o["resame"] = cls3 == "ok" && m2 == len(b2) && dumpTop(d2) == o["dval"]
-					} else {
-						o["resame"] = false
-					}
-				}
-			}
-			enc.Encode(o)
+			emit(t, g.value(t.T, depth))
+		}
+	}
+	// arrays of minimal-size elements of every builtin type, (a) as the last thing in the buffer (a bare Variant),
+	// (b) followed by other fields (inside a DataValue with status and timestamps), (c) two of them in a ReadResponse
+	mins := g.minimalVariants()
+	var rr target
+	for _, t := range all {
+		if t.Name == "ty_ReadResponse" {
+			rr = t
+		}
+	}
+	for i, m := range mins {
+		emit(customs[0], reflect.ValueOf(m))
+		emit(customs[1], reflect.ValueOf(&ua.DataValue{EncodingMask: 0x3f, Value: m, Status: ua.StatusCode(0x80000000),
+			SourceTimestamp: time.Unix(1700000000, 100).UTC(), SourcePicoseconds: 7, ServerTimestamp: time.Unix(1700000001, 0).UTC(), ServerPicoseconds: 9}))
+		if rr.T != nil && i%7 == 3 {
+			emit(rr, reflect.ValueOf(&ua.ReadResponse{ResponseHeader: &ua.ResponseHeader{ServiceDiagnostics: &ua.DiagnosticInfo{}, AdditionalHeader: ua.NewExtensionObject(nil)},
+				Results: []*ua.DataValue{{EncodingMask: 1, Value: m}, {EncodingMask: 1, Value: mins[(i+1)%len(mins)]}}}))
 		}
 	}
 }
